@@ -107,6 +107,25 @@ pub fn c12_check(ck: &mut Checker, sim: &mut Sim, after_boot: bool) {
                     anc.insert(b.number(), b.hash());
                     cur = b.parent;
                 }
+                // ... namely the ones right below it: consecutive numbers ending at tip - 1
+                if let (Some((first, _)), Some((last, _))) = (last_n.first(), last_n.last()) {
+                    let consecutive = last_n.windows(2).all(|w| w[0].0 + 1 == w[1].0);
+                    if !consecutive || *first > *last {
+                        // young chains: the merge of an old, short window with the new headers
+                        // leaves duplicated numbers in the list (all of them true ancestors)
+                        sim.stat("probe.c12.last_n_window_with_overlapping_numbers");
+                    }
+                    if *last + 1 != number {
+                        findings.push((
+                            "last_n_window_does_not_end_right_below_the_tip",
+                            format!(
+                                "tip #{}, remembered header numbers {:?}",
+                                number,
+                                last_n.iter().map(|(n, _)| *n).collect::<Vec<_>>()
+                            ),
+                        ));
+                    }
+                }
                 for (n, h) in &last_n {
                     if *n >= number || anc.get(n) != Some(h) {
                         findings.push((
